@@ -638,6 +638,62 @@ pub mod c16__leaves {
     }
 }
 
+
+// ========================================================================================= combine_all
+/// an output type whose Default is NOT neutral under combine, so that "the fold starts from the default" is observable
+#[derive(Clone, Copy, PartialEq, Eq)]
+pub struct Marked(u64, u32);
+impl Default for Marked {
+    fn default() -> Self {
+        Marked(0xD, 1)
+    }
+}
+impl Combine for Marked {
+    fn combine(self, o: Self) -> Self {
+        Marked((self.0 << (4 * o.1)) | o.0, self.1 + o.1)
+    }
+}
+pub mod c16__combine_all {
+    use super::*;
+    /// combine_all = left fold FROM THE DEFAULT, every item in order, first error returned, nothing after it consumed
+    /// [bounded: at most 2 items]
+    #[kani::proof]
+    #[kani::unwind(4)]
+    fn folds_from_default__bounded_len2() {
+        let a: u8 = kani::any();
+        let b: u8 = kani::any();
+        kani::assume(a < 16 && b < 16);
+        let fail: u8 = kani::any(); // 0 = none, 1 = first item is an error, 2 = second
+        let len: usize = kani::any();
+        kani::assume(len <= 2);
+        let mut pulled = 0u8;
+        let items = [(a, 1u8), (b, 2u8)];
+        let it = items[..len].iter().map(|(v, k)| {
+            pulled += 1;
+            if *k == fail {
+                Err(*k)
+            } else {
+                Ok(Marked(*v as u64, 1))
+            }
+        });
+        let r: std::result::Result<Marked, u8> = combine_all(it);
+        let d = Marked::default();
+        let want = if fail >= 1 && (fail as usize) <= len {
+            Err(fail)
+        } else if len == 0 {
+            Ok(d)
+        } else if len == 1 {
+            Ok(d.combine(Marked(a as u64, 1)))
+        } else {
+            Ok(d.combine(Marked(a as u64, 1)).combine(Marked(b as u64, 1)))
+        };
+        assert!(r == want);
+        // an error stops the walk: nothing after the failing item is pulled from the iterator
+        assert!(pulled as usize == if fail >= 1 && (fail as usize) <= len { fail as usize } else { len });
+        kani::cover!(true, "end of harness reached");
+    }
+}
+
 // ========================================================================================= canary
 #[kani::proof]
 #[kani::unwind(3)]
